@@ -41,19 +41,26 @@ CONFIGS = {
     'monitors': {'evalmon': 'Monitor', 'stepmon': 'Monitor'},
     'logging': {'evalmon': 'Monitor', 'stepmon': 'Logging'},
     'verbose': {'evalmon': 'Monitor', 'stepmon': 'Verbose'},
+    'logging_eval': {'evalmon': 'Logging', 'stepmon': 'Monitor'},
     'limit_gen': {'limits': [4, None], 'term': 'cog'},
     'limit_eval': {'limits': [None, 12], 'term': 'default'},
     'symbolic': {'box': 'unit', 'constraint': 'symbolic'},
+    # histories: the run is reconfigured between two Steps (the crash point right after it finds the objective not live)
+    'reconf_pen_mon': {'evalmon': 'Monitor', 'midrun': {'at': 3, 'ops': [['SetPenalty', 'ramp'], ['SetEvaluationMonitor', 'Monitor'], ['SetGenerationMonitor', 'Monitor']]}},
+    'reconf_box_lim': {'constraint': 'clamp/pure', 'midrun': {'at': 2, 'ops': [['SetStrictRanges', 'unit', True, None], ['SetEvaluationLimits', 3, None, True]]}},
     'reducer': {'cost': 'vec', 'reducer': 'sum', 'penalty': 'ramp'},
 }
 QUICK_PLAN = [('plain', 'sphere'), ('plain', 'steps'), ('plain', 'rosen'),
               ('box_con_pen', 'sphere'), ('box_con_pen', 'steps'), ('box_con_pen_inplace', 'sphere'),
               ('tight', 'sphere'), ('clip', 'sphere'), ('clip_random', 'sphere'),
-              ('monitors', 'sphere'), ('logging', 'sphere'), ('limit_gen', 'sphere'), ('limit_eval', 'sphere')]
+              ('monitors', 'sphere'), ('logging', 'sphere'), ('limit_gen', 'sphere'), ('limit_eval', 'sphere'),
+              ('reconf_pen_mon', 'sphere'), ('reconf_box_lim', 'sphere')]
 THOROUGH_COSTS = ['sphere', 'steps', 'rosen', 'absum', 'infwall']
 
 SINGLE = ['dill.dumps/dill.loads', 'dill.copy', 'copy.deepcopy', 'SaveSolver/LoadSolver', 'SaveSolver/dill.load']
-SPLIT = {'dill.dumps/dill.loads': ('dill.dumps', 'dill.loads'), 'dill.copy': ('-', 'dill.copy'),
+SINGLE_THOROUGH = ['SaveSolver()/LoadSolver(_state=)'] + SINGLE     # file name chosen by the solver, restored by keyword
+SPLIT = {'SaveSolver()/LoadSolver(_state=)': ('SaveSolver()', 'LoadSolver(_state=)'),
+         'dill.dumps/dill.loads': ('dill.dumps', 'dill.loads'), 'dill.copy': ('-', 'dill.copy'),
          'copy.deepcopy': ('-', 'copy.deepcopy'), 'copy.copy': ('-', 'copy.copy'),
          'SaveSolver/LoadSolver': ('SaveSolver', 'LoadSolver'), 'SaveSolver/dill.load': ('SaveSolver', 'dill.load')}
 DOUBLE = {'SaveSolver/LoadSolver': ['SaveSolver/LoadSolver', 'dill.dumps/dill.loads', 'copy.deepcopy'],
@@ -95,16 +102,19 @@ class Bench(object):
 
     def __init__(self, cfg, n, tmp):
         self.cfg = dict(cfg)
-        self.labcfg = {k: v for k, v in cfg.items() if k != 'conf'}
+        self.labcfg = {k: v for k, v in cfg.items() if k not in ('conf', 'midrun')}
+        mid = cfg.get('midrun')
+        self.midrun = {int(mid['at']): mid['ops']} if mid else {}
         self.n = n
         self.tmp = tmp
         self.serial = 0
+        self.cleanup = []       # files the solver itself created outside the shard's temp dir
         lab = self.lab()
         self.ref = [cn.fields(lab.solver)]
         self.msgs = [None]
         self.rngs = [lab.rng.getstate()]
         for i in range(n):
-            self.msgs.append(self.step(lab, lab.solver))
+            self.msgs.append(self.advance(lab, lab.solver, i + 1))
             self.ref.append(cn.fields(lab.solver))
             self.rngs.append(lab.rng.getstate())
         self.distinct_boundaries = len(set(cn.freeze(f) for f in self.ref))
@@ -113,9 +123,30 @@ class Bench(object):
     def lab(self):
         return solverlab.Lab(self.labcfg, self.tmp)
 
-    def step(self, lab, s):
+    def advance(self, lab, X, i):
+        """take the Step that reaches boundary i, then the reconfiguration scheduled at that boundary (if any)"""
         with lab._env():
-            return s.Step()
+            msg = X.Step()
+            for op in self.midrun.get(i, ()):
+                self.apply(lab, X, op)
+        return msg
+
+    def apply(self, lab, X, op):
+        name = op[0]
+        if name == 'SetPenalty':
+            X.SetPenalty(lab.pen(op[1]))
+        elif name == 'SetConstraints':
+            X.SetConstraints(lab.con(op[1]))
+        elif name == 'SetEvaluationMonitor':
+            X.SetEvaluationMonitor(solverlab.make_monitor(op[1], self.tmp, 'me'))
+        elif name == 'SetGenerationMonitor':
+            X.SetGenerationMonitor(solverlab.make_monitor(op[1], self.tmp, 'ms'))
+        elif name == 'SetStrictRanges':
+            lab.set_ranges(X, op[1], op[2], op[3])
+        elif name == 'SetEvaluationLimits':
+            X.SetEvaluationLimits(op[1], op[2], new=op[3])
+        else:
+            raise KeyError(name)
 
     def fresh(self, k, setup=None, ref=None):
         """a fresh original driven to boundary k; proves the harness owns all nondeterminism"""
@@ -123,7 +154,7 @@ class Bench(object):
         if setup is not None:
             setup(lab)
         for i in range(k):
-            self.step(lab, lab.solver)
+            self.advance(lab, lab.solver, i + 1)
         if ref is None:
             ref = self.ref
         d = cn.diff(cn.fields(lab.solver), ref[k])
@@ -141,6 +172,12 @@ class Bench(object):
         from mystic.solvers import LoadSolver
         save, restore = SPLIT[name]
         with lab._env():
+            if save == 'SaveSolver()':
+                had = X._state
+                X.SaveSolver()
+                if had is None:
+                    self.cleanup.append(X._state)
+                return LoadSolver(_state=X._state)
             if save == 'dill.dumps':
                 if 'blob' not in shared:
                     shared['blob'] = dill.dumps(X)
@@ -175,7 +212,7 @@ class Bench(object):
         accounted = False
         for s in range(1, self.n - start + 1):
             try:
-                msg = self.step(lab, X)
+                msg = self.advance(lab, X, start + s)
             except solverlab.Horizon:
                 raise
             except Exception as e:
@@ -365,8 +402,9 @@ def run_solve(b, k, kinds, T):
         e0, meter, calls = int(R.evaluations), CallMeter(R), 0
         try:
             fR = solve(R)
-        except solverlab.Horizon:
-            raise
+        except solverlab.Horizon as e:
+            problems.append(('continue_runaway', 'observable', 'Solve() after the restore at boundary %d did not stop within the evaluation horizon (%s); the original stopped' % (k, e)))
+            fR = None
         except Exception as e:
             problems.append(('continue_raised', type(e).__name__, 'Solve() after the restore at boundary %d raised %s: %s' % (k, type(e).__name__, e)))
             fR = None
@@ -400,7 +438,7 @@ def run_periodic(b, f, restores, T, only_j=None):
     rngs = [lab.rng.getstate()]
     files = [None]
     for i in range(b.n):
-        msgs.append(b.step(lab, O))
+        msgs.append(b.advance(lab, O, i + 1))
         pref.append(cn.fields(O))
         rngs.append(lab.rng.getstate())
         files.append(open(fn, 'rb').read() if os.path.exists(fn) else None)
@@ -488,7 +526,7 @@ def run_double(b, k1, first, seconds, T, only_k2=None):
     lab.rng.setstate(b.rngs[k1])
     for k2 in range(k1 + 1, b.n):
         try:
-            msg = b.step(lab, R1)
+            msg = b.advance(lab, R1, k2)
         except Exception:
             return  # reported by run_single
         T.count('transitions')
@@ -545,6 +583,7 @@ def shard(item):
     cfg, n, plan = item
     T = Tally()
     tmp = tempfile.mkdtemp(prefix='c06_')
+    b = None
     try:
         b = Bench(cfg, n, tmp)
         for f in b.ref:
@@ -553,23 +592,32 @@ def shard(item):
         T.hist('distinct_boundary_states_of_reference_run', b.distinct_boundaries)
         T.hist('reference_run_stops_at_step', next((i for i, m in enumerate(b.msgs) if m), 'never'))
         for k in range(n):
-            run_single(b, k, SINGLE, T)
+            run_single(b, k, plan['single'], T)
             if cfg.get('limits') is not None:
                 run_solve(b, k, ['SaveSolver/LoadSolver', 'dill.dumps/dill.loads', 'dill.copy'], T)
-        for f in plan['freqs']:
+        for f in (plan['freqs'] if not b.midrun else ()):      # (periodic dumps are exercised on unreconfigured runs)
             run_periodic(b, f, PERIODIC_RESTORES, T)
         for k1 in range(n - 1):
             for first in sorted(plan['double']):
                 run_double(b, k1, first, plan['double'][first], T)
         T.sample({'cfg': cfg, 'n': n, 'mode': 'single', 'k': n // 2, 'transfer': 'SaveSolver/LoadSolver'})
     finally:
-        shutil.rmtree(tmp, ignore_errors=True)
+        _cleanup(tmp, b)
     return T
+
+
+def _cleanup(tmp, b):
+    shutil.rmtree(tmp, ignore_errors=True)
+    for f in (b.cleanup if b is not None else ()):
+        try:
+            os.remove(f)
+        except OSError:
+            pass
 
 
 def plan_of(ctx):
     n = 12 if ctx.thorough else 8
-    plan = {'freqs': FREQS, 'double': DOUBLE if ctx.thorough else DOUBLE_QUICK}
+    plan = {'freqs': FREQS, 'double': DOUBLE if ctx.thorough else DOUBLE_QUICK, 'single': SINGLE_THOROUGH if ctx.thorough else SINGLE}
     items = []
     if not ctx.thorough:
         for solver in solverlab.SOLVERS:
@@ -597,7 +645,7 @@ def run(ctx):
                   'solvers': list(solverlab.SOLVERS), 'configurations': sorted(set(it[0]['conf'] for it in items)),
                   'costs': sorted(set(it[0]['cost'] for it in items)), 'dims': sorted(set(it[0]['dim'] for it in items)),
                   'seeds': sorted(set(it[0]['seed'] for it in items)), 'configuration_shards': len(items),
-                  'single_transfers': SINGLE + ['copy.copy'], 'periodic_frequencies': FREQS, 'periodic_restores': PERIODIC_RESTORES,
+                  'single_transfers': (SINGLE_THOROUGH if ctx.thorough else SINGLE) + ['copy.copy'], 'periodic_frequencies': FREQS, 'periodic_restores': PERIODIC_RESTORES,
                   'double_chains(first -> seconds)': DOUBLE if ctx.thorough else DOUBLE_QUICK,
                   'solve_continuation': 'configurations with limits: Solve() on original and restored from every k'}
     ctx.rule = ("a case = one (configuration, crash point(s), save path, restore path) resumed run; `states` = distinct canonical forms of "
@@ -618,6 +666,7 @@ def run(ctx):
 def replay(case):
     T = Tally()
     tmp = tempfile.mkdtemp(prefix='c06r_')
+    b = None
     try:
         b = Bench(case['cfg'], case['n'], tmp)
         mode = case['mode']
@@ -634,5 +683,5 @@ def replay(case):
         elif mode == 'double':
             run_double(b, case['k1'], case['first'], [case['second']], T, only_k2=case['k2'])
     finally:
-        shutil.rmtree(tmp, ignore_errors=True)
+        _cleanup(tmp, b)
     return [v['detail'] for v in T.violations.values()]
